@@ -243,11 +243,13 @@ func (r *Run) flush() {
 	r.coqCases = nil
 }
 
+// Violate records an oracle violation; at most 5 per key and 60 overall are kept (all are
+// counted in the distribution), so that one defect class cannot crowd out another.
 func (r *Run) Violate(v Violation) {
-	if len(r.Violations) < 50 {
+	r.Dist["oracle_violation:"+v.Key]++
+	if r.Dist["oracle_violation:"+v.Key] <= 5 && len(r.Violations) < 60 {
 		r.Violations = append(r.Violations, v)
 	}
-	r.Dist["oracle_violation:"+v.Key]++
 }
 
 func (r *Run) Tie(issue string) { r.TieIssues = append(r.TieIssues, issue) }
